@@ -60,8 +60,8 @@ write("C15", "C15 — released space is reused: repeating a net-zero cycle does 
    ("witness_cycle_stable", "Examples.small_stream_cycle_stable", "the witness cycle create / write 100 / remove evaluated on the model: sizes 1536, 2560, 2560, 2560, 2560"),
   ])
 
-write("C02", "C02 — write-through persistence: the byte image always reopens to the same state.  Statements are printed by Check below and compared with C02.expected.  PARTIAL: proved are the write-through of the FAT, of the directory (insert / remove / metadata updates / new directory sectors) and of the MiniFAT cells (every cached cell or entry equals its bytes on disk after every mutation), that the on-disk FAT and directory read back as open does return the cache (the directory followed by the blank slots of its last sector), the entry / header codec round trips in both modes, and that strict acceptance gives the same state as permissive.  Also proved (proofs/ReopenProofs.v): the REOPEN ROUND TRIP - for every state that is Coherent (header bytes = header computed from the cache, FAT / directory / MiniFAT cache = disk, tails FREE, tables valid; no DIFAT sectors, i.e. at most 109 FAT sectors) open in BOTH modes on the concatenated image succeeds and returns exactly the cached tables (directory followed by the blank slots of its last sector, free lists rebuilt in index order); Coherent holds for the fresh file of either version and, by a sound boolean checker, for reachable example states (storages, mini and regular streams, removals, second FAT sector, second directory sector, extended MiniFAT); the header field writes of allocation keep the header coherent.  NOT proved: that Coherent is preserved by every API operation (its layers are: FAT, directory, MiniFAT write-through above), and the DIFAT-sector regime; both are checked at every operation boundary of generated histories: the implementation's bytes, taken without flush, are reopened in both modes by the crate and by the model and all dumps compared.",
-  IMP_ALL + "\nFrom Cfb.proofs Require Import CoherenceProofs CodecProofs StrictProofs DirCoherence ReopenProofs.",
+write("C02", "C02 — write-through persistence: the byte image always reopens to the same state.  Statements are printed by Check below and compared with C02.expected.  PARTIAL: proved are the write-through of the FAT, of the directory (insert / remove / metadata updates / new directory sectors) and of the MiniFAT cells (every cached cell or entry equals its bytes on disk after every mutation), that the on-disk FAT and directory read back as open does return the cache (the directory followed by the blank slots of its last sector), the entry / header codec round trips in both modes, and that strict acceptance gives the same state as permissive.  Also proved (proofs/ReopenProofs.v): the REOPEN ROUND TRIP - for every state that is Coherent (header bytes = header computed from the cache, FAT / directory / MiniFAT cache = disk, tails FREE, tables valid; no DIFAT sectors, i.e. at most 109 FAT sectors) open in BOTH modes on the concatenated image succeeds and returns exactly the cached tables (directory followed by the blank slots of its last sector, free lists rebuilt in index order); Coherent holds for the fresh file of either version and, by a sound boolean checker, for reachable example states (storages, mini and regular streams, removals, second FAT sector, second directory sector, extended MiniFAT); the header field writes of allocation keep the header coherent.  Also proved (proofs/PersistProofs.v): PERSISTENCE OVER HISTORIES of the namespace - a stronger invariant PInv (Coherent + directory and MiniFAT chains disjoint + every entry well-formed and black + the table represents a tree) holds of the fresh file of either version, is preserved by create_storage, create_new_stream, remove_storage, remove_stream (of empty streams), the four metadata setters (unchanged state on their refusals), including the growth of the directory chain by a sector with a new FAT sector, and implies the round trip; hence for EVERY history of those calls and the queries (up to 6000 calls, each Ok or without effect) the bytes alone reopen in both modes to the cached state, at every prefix.  NOT proved: preservation by operations that move stream data (write, set_len, removal of non-empty streams, overwrite), and the DIFAT-sector regime; both are checked at every operation boundary of generated histories: the implementation's bytes, taken without flush, are reopened in both modes by the crate and by the model and all dumps compared.",
+  IMP_ALL + "\nFrom Cfb.proofs Require Import CoherenceProofs CodecProofs StrictProofs DirCoherence ReopenProofs ReadonlyTotal PersistProofs.",
   [("set_fat_writes_through", "set_fat_existing_coherent", "every FAT cell update is on disk when the call returns"),
    ("allocation_reuse_keeps_coherence", "allocate_reuse_preserves", "allocation from the free list keeps cache = disk"),
    ("allocation_growth_keeps_coherence", "allocate_grow_coherent", "growth (new FAT / DIFAT sectors) keeps cache = disk and the DIFAT consistent"),
@@ -83,6 +83,15 @@ write("C02", "C02 — write-through persistence: the byte image always reopens t
    ("fresh_header_is_coherent", "create_state_header_coherent", "header bytes of a fresh file = header computed from the cache"),
    ("allocation_keeps_the_header_coherent", "allocate_sector_header", "reuse and growth (with or without a new FAT sector listed in the header DIFAT) leave header bytes = header of the cache"),
    ("new_fat_sector_updates_the_header", "append_fat_sector_header", "appending a FAT sector writes the DIFAT slot and the FAT-sector count through"),
+   ("history_invariant_implies_round_trip", "PInv_reopens", "every state satisfying the history invariant reopens, in both modes, to its cached tables"),
+   ("tables_that_represent_a_tree_validate", "tree_validates", "strict directory validation succeeds on every all-black table that represents an abstract tree"),
+   ("fresh_file_satisfies_the_invariant", "create_state_pinv", "V3 and V4"),
+   ("create_storage_preserves_the_invariant", "create_storage_preserves", "including directory-chain growth and a new FAT sector"),
+   ("remove_storage_preserves_the_invariant", "remove_storage_preserves", "removal by relinking keeps cache = disk and the table a tree"),
+   ("metadata_updates_preserve_the_invariant", "set_state_preserves", "same for set_storage_clsid, set_created_time, set_modified_time (set_*_preserves, set_*_err in proofs/PersistProofs.v)"),
+   ("persistence_over_histories", "persist_history", "for EVERY history of the covered calls from a fresh file: the bytes alone reopen, in both modes, to the cached state"),
+   ("persistence_at_every_prefix", "persist_every_prefix", "the same at every operation boundary of the history (a crash or drop between any two calls)"),
+   ("persistence_example", "Example.hist_persists", "non-vacuity: a 17-call history (storages, an empty stream, metadata, a refused removal, slot reuse, directory growth) on V3 and V4"),
   ])
 
 write("C04", "C04 — any valid layout written by another implementation is read correctly.  Statements are printed by Check below and compared with C04.expected.  PARTIAL: the layout-independence components are theorems — a chain is read as the concatenation of its sectors in chain order WHATEVER the sector numbers (fragmented, reversed, anywhere in the file), lookup finds exactly the keys of ANY search tree over the CFB order (balanced red-black or degenerate, any slots), listing is the in-order sequence, the order is shortlex on upper-cased UTF-16 units.  The composition open_any_layout (Represents b t -> abs (open b) = t) is not proved; it is checked on images written by an independent layout synthesiser.",
